@@ -34,16 +34,18 @@ type Expect struct {
 
 // In is the replayable input of every C14 scenario: the exact bytes plus the model they were built from.
 type In struct {
-	Name    string       // label of the configuration
-	Model   gen.DebModel // what the bytes were built from
-	Exp     Expect
-	Layout  string `json:",omitempty"` // "" canonical | "data-before-control"
-	Extra   string `json:",omitempty"` // "" | "gpgorigin-end" | "underscore-end" | "underscore-after-binary" | "unrelated-first"
-	Drop    string `json:",omitempty"` // "" | "debian-binary" | "control" | "data"
-	Dup     string `json:",omitempty"` // "" | "control-end" | "control-adjacent" | "data-end" | "data-adjacent" | "both-end"
-	Verdict string // "must-load" | "must-reject" | "lenient" (may be rejected; if it loads it must be faithful) | "unconstrained" (only determinism)
-	Orders  bool   `json:",omitempty"` // run under ForEachMapOrder instead of two plain loads
-	Deb     []byte // the package, byte-exact (base64 in JSON)
+	Name       string       // label of the configuration
+	Model      gen.DebModel // what the bytes were built from
+	Exp        Expect
+	Layout     string `json:",omitempty"` // "" canonical | "data-before-control"
+	Extra      string `json:",omitempty"` // "" | "gpgorigin-end" | "underscore-end" | "underscore-after-binary" | "unrelated-first"
+	Drop       string `json:",omitempty"` // "" | "debian-binary" | "control" | "data"
+	Dup        string `json:",omitempty"` // "" | "control-end" | "control-adjacent" | "data-end" | "data-adjacent" | "both-end"
+	SecondName string `json:",omitempty"` // a further member with this name (see secondMember) ...
+	SecondPos  int    `json:",omitempty"` // ... inserted at this position of the member list
+	Verdict    string // "must-load" | "must-reject" | "lenient" (may be rejected; if it loads it must be faithful) | "unconstrained" (only determinism)
+	Orders     bool   `json:",omitempty"` // run under ForEachMapOrder instead of two plain loads
+	Deb        []byte // the package, byte-exact (base64 in JSON)
 }
 
 func features(in In) []string {
@@ -64,6 +66,15 @@ func features(in In) []string {
 		f = append(f, "two-data-members")
 	case strings.HasPrefix(in.Dup, "both"):
 		f = append(f, "two-control-members", "two-data-members")
+	}
+	switch {
+	case strings.HasPrefix(in.SecondName, "control."):
+		f = append(f, "two-control-members")
+	case strings.HasPrefix(in.SecondName, "data."):
+		f = append(f, "two-data-members")
+	}
+	if in.SecondName != "" && !strings.HasPrefix(in.SecondName, "control.tar") && !strings.HasPrefix(in.SecondName, "data.tar") {
+		f = append(f, "second-member-name-not-tar")
 	}
 	if in.Model.BinaryContent() != "2.0\n" {
 		f = append(f, "debian-binary-not-2.0")
@@ -122,6 +133,33 @@ func paragraphs() []paragraph {
 			{Key: "Description", Value: "one line only"},
 		}, Expect{Package: "x", Upstream: "0.939000", Arch: "i386", Maintainer: "M <m@example.org>", Description: "one line only"}},
 	}
+}
+
+// bigParagraph is the "full" model with a Description folded over as many lines as it takes to reach descBytes.
+func bigParagraph(name string, descBytes int) paragraph {
+	p := paragraphs()[1]
+	var folded, logical strings.Builder
+	folded.WriteString("a long extended description")
+	logical.WriteString("a long extended description")
+	for i := 0; folded.Len() < descBytes; i++ {
+		if i%40 == 39 {
+			folded.WriteString("\n .")
+			logical.WriteString("\n")
+			continue
+		}
+		line := fmt.Sprintf("line %06d of the extended description; it is here only to make the control file large.", i)
+		folded.WriteString("\n " + line)
+		logical.WriteString("\n" + line)
+	}
+	fields := append([]gen.DebField(nil), p.fields...)
+	for i := range fields {
+		if fields[i].Key == "Description" {
+			fields[i].Value = folded.String()
+		}
+	}
+	p.name, p.fields = name, fields
+	p.exp.Description = logical.String()
+	return p
 }
 
 var controlEntrySets = [][]string{
@@ -242,7 +280,55 @@ func assemble(c *gen.DebCompressor, in *In) ([]gen.ArMember, error) {
 			out = append(out, *dupDat)
 		}
 	}
+	if in.SecondName != "" {
+		sm, err := secondMember(c, in)
+		if err != nil {
+			return nil, err
+		}
+		pos := in.SecondPos
+		if pos > len(out) {
+			pos = len(out)
+		}
+		out = append(out[:pos:pos], append([]gen.ArMember{sm}, out[pos:]...)...)
+	}
 	return out, nil
+}
+
+// secondMember builds the further control.* / data.* member named in.SecondName. If the name looks like a tar
+// (".tar" or ".tar.<encoding>" suffix) it IS one, in that encoding, with content that differs from the model's
+// (Package: second-control-member / file ./second-data-member); any other name carries bytes that are no tar.
+func secondMember(c *gen.DebCompressor, in *In) (gen.ArMember, error) {
+	name := in.SecondName
+	isCtl := strings.HasPrefix(name, "control.")
+	comp := ""
+	switch {
+	case strings.HasSuffix(name, ".tar"):
+		comp = "none"
+	default:
+		for _, k := range gen.DebComps[1:] {
+			if strings.HasSuffix(name, ".tar."+k) {
+				comp = k
+			}
+		}
+	}
+	if comp == "" {
+		return gen.ArMember{Name: name, Data: []byte("this member is not a tar archive\n")}, nil
+	}
+	m2 := in.Model
+	var raw []byte
+	if isCtl {
+		m2.Fields = append([]gen.DebField(nil), in.Model.Fields...)
+		for i := range m2.Fields {
+			if m2.Fields[i].Key == "Package" {
+				m2.Fields[i].Value = "second-control-member"
+			}
+		}
+		raw = m2.ControlTar()
+	} else {
+		raw = gen.BuildTar([]gen.TarEntry{{Name: "./second-data-member", Body: []byte("other payload\n")}})
+	}
+	z, err := c.Compress(comp, raw)
+	return gen.ArMember{Name: name, Data: z}, err
 }
 
 // ---------------------------------------------------------------- oracle
@@ -364,7 +450,7 @@ func describeFiles(fs []gen.TarEntry) string {
 		if f.Dir {
 			s = append(s, f.Name+" (dir)")
 		} else {
-			s = append(s, fmt.Sprintf("%s (%d bytes)", f.Name, len(f.Body)))
+			s = append(s, fmt.Sprintf("%s (%d bytes)", f.Name, len(f.Content())))
 		}
 	}
 	return fmt.Sprint(s)
@@ -380,7 +466,7 @@ func comparePayload(want []gen.TarEntry, o Obs) string {
 	}
 	for i, w := range want {
 		g := o.Files[i]
-		if g.Name != w.Name || g.Dir != w.Dir || g.Type != "" || (!w.Dir && !bytes.Equal(g.Body, w.Body)) {
+		if g.Name != w.Name || g.Dir != w.Dir || g.Type != "" || (!w.Dir && !bytes.Equal(g.Body, w.Content())) {
 			return fmt.Sprintf("entry %d differs: %s", i, describeObs(o.Files))
 		}
 	}
